@@ -132,7 +132,7 @@ func (c *C14) Plan(tier string) engine.Plan {
 
 func (c *C14) Run(x *engine.Ctx) *engine.Violation {
 	t := x.T
-	if x.Run >= 1200 && x.Run < 1204 {
+	if (x.Run >= 1200 && x.Run < 1212) || (x.Run >= 5000 && x.Run%500 < 2) {
 		return c.processClause(x) // real process, real sockets, SIGINT (uncontrolled schedule)
 	}
 	sim := service.NewSim(t, x.Log, x.S)
